@@ -141,3 +141,50 @@ Proof.
   - apply (helper_own_ok U h (find_helper_In _ _ _ Ef) g Hin).
   - apply in_flat_map in Hin as [d [_ Hd]]. apply (IH d g Hd).
 Qed.
+
+(* ---------- without any hypothesis on U: exactly what can leak ---------- *)
+
+Lemma residual_leaks (U : fset) :
+  forall n f, U f = true -> dispose U f = Lowered -> rank f < Z.of_nat n ->
+  forall g, In g (residual U n f) -> U g = false \/ (g = FArraySpread /\ U FClassField = true).
+Proof.
+  intros n. induction n as [|n IH]; intros f Hf Hd Hr g Hin.
+  - assert (0 <= rank f) by (destruct f; vm_compute; congruence). lia.
+  - cbn [residual] in Hin. rewrite Hf, Hd in Hin. apply in_flat_map in Hin as [h [Hh Hg]].
+    destruct (lowering_closed_gen U f h Hf Hd Hh) as [Hu|[[Hl Hrk]|[-> ->]]].
+    + rewrite residual_unsupported_not in Hg by assumption. destruct Hg as [<-|[]]. left; assumption.
+    + destruct (U h) eqn:Huh.
+      * apply (IH h Huh Hl); [lia | assumption].
+      * rewrite residual_unsupported_not in Hg by assumption. destruct Hg as [<-|[]]. left; assumption.
+    + destruct (U FArraySpread) eqn:Hsp.
+      * rewrite residual_nonlowered in Hg by (try assumption; cbv [dispose]; discriminate).
+        cbv [dispose] in Hg. destruct Hg as [<-|[]]. right. split; [reflexivity | exact Hf].
+      * rewrite residual_unsupported_not in Hg by assumption. destruct Hg as [<-|[]]. left; assumption.
+Qed.
+
+(* the ONLY unsupported syntax a successful compile can write, for EVERY U and every
+   program: the silent hashbang, and the array spread of `super(...arguments)` when class
+   fields are lowered while array spread is switched off (both recorded findings) *)
+Lemma compile_leaks_exact_l (U : fset) prog out g :
+  compile U prog = Ok out -> In g out -> U g = true ->
+  g = FHashbang \/ (g = FArraySpread /\ U FClassField = true) \/ dispose U g = NotSyntax.
+Proof.
+  intros Hc Hin Hug. unfold compile in Hc.
+  destruct (existsb _ prog) eqn:Ex; [discriminate|].
+  assert (out = flat_map (residual U residual_fuel) prog) as -> by congruence. clear Hc.
+  apply in_flat_map in Hin as [f [Hf Hg]].
+  assert (U f && is_rejected (dispose U f) = false) as Hnr.
+  { destruct (U f && is_rejected (dispose U f)) eqn:E; [|reflexivity].
+    assert (existsb (fun f => U f && is_rejected (dispose U f)) prog = true)
+      by (apply existsb_exists; exists f; split; assumption). congruence. }
+  destruct (U f) eqn:Huf.
+  - cbn [andb] in Hnr. destruct (dispose U f) eqn:Hd; try discriminate.
+    + destruct (residual_leaks U residual_fuel f Huf Hd (rank_below_fuel f) g Hg) as [H|[-> H]]; [congruence|].
+      right; left. split; [reflexivity | exact H].
+    + rewrite residual_nonlowered in Hg by (try assumption; congruence). rewrite Hd in Hg. destruct Hg.
+    + rewrite residual_nonlowered in Hg by (try assumption; congruence). rewrite Hd in Hg. destruct Hg as [<-|[]].
+      left. apply (only_hashbang_is_silent U f Hd).
+    + rewrite residual_nonlowered in Hg by (try assumption; congruence). rewrite Hd in Hg. destruct Hg as [<-|[]].
+      right; right; assumption.
+  - rewrite residual_unsupported_not in Hg by assumption. destruct Hg as [<-|[]]. congruence.
+Qed.
